@@ -48,6 +48,7 @@ template <bool IsInt> struct IntOnly {
         out("trunc 6ft->yd", will_conversion_truncate(feet(R{6}), feet * mag<3>()));
         out("ovf max ft->in", will_conversion_overflow(feet(std::numeric_limits<R>::max()), inches));
         out("coerce 7ft->yd", a.coerce_in(feet * mag<3>()));
+        out("coerce 100ft->m", feet(R{100}).coerce_in(meters)); out("coerce 50in->(5/9)ft", inches(R{50}).coerce_in(feet * mag<5>() / mag<9>()));
         out("int div unblocked", (feet(R{100}) / unblock_int_div(seconds(R{7}))).in(feet / second));
         out("lossy<i8> 100ft", is_conversion_lossy<int8_t>(feet(R{100}), inches));
         out("lossy<u16> in", is_conversion_lossy<uint16_t>(feet(R{100}), inches));
